@@ -226,10 +226,13 @@ class Impl:
             todo += [n for n in self.neighbours(c) if id(n) not in self.registry]
 
     def reaches(self, src, dst):
+        """does `src` (transitively: fields, base, wrapped type) use `dst` or any other variant of dst's original?
+        (appending such a type to dst would build a recursive type; histories stay acyclic)"""
+        root = lambda c: getattr(c, '__orig__', None) or c
         seen, todo = set(), [src]
         while todo:
             c = todo.pop()
-            if c is dst:
+            if root(c) is root(dst):
                 return True
             if id(c) in seen:
                 continue
